@@ -23,6 +23,7 @@ type c04Gen struct {
 	strings [][2]any // [spelled, tokens]
 	env     map[string]string
 	failAt  int // position index that gets a ${P?} with P unset (-1: none)
+	failCls string // or: the first string of this class gets it ("" none)
 }
 
 func (g *c04Gen) mk(class string) string {
@@ -38,6 +39,9 @@ func (g *c04Gen) mk(class string) string {
 		lead = fmt.Sprintf("k%d-", i)
 	default:
 		lead = fmt.Sprintf("s%d ", i)
+	}
+	if g.failCls != "" && class == g.failCls && g.failAt < 0 {
+		g.failAt = i
 	}
 	toks := []any{tokLit(lead)}
 	if i != g.failAt && g.rng.Intn(7) == 0 {
@@ -165,6 +169,11 @@ func c04Case(rng *rand.Rand, i int) obj {
 	dg.bigMaps = i%5 == 4
 	if i%11 == 10 {
 		g.failAt = 1 + rng.Intn(12)
+	}
+	if i%11 == 5 {
+		// the failing expansion sits where a walker has "something else" to carry on with: a plugin source (its
+		// config follows), a mapping key (its value follows), an env name, a matrix dimension
+		g.failCls = []string{"pluginsrc", "pluginsrc", "key", "envname", "dim", "stepkey", "cachename", "matrixval", "skip"}[rng.Intn(9)]
 	}
 	doc := dg.pipeline()
 	// twin keys: an escaped key next to its unescaped twin ("$$T" and "$T"): the first expands to the
